@@ -120,12 +120,30 @@ Lemma rf_ok_lit_inv : forall s s', rf_ok_lit s s' = true ->
   fopt_sim (parse_float false s') (parse_float false s) = true /\
   fopt_sim (parse_float true s') (parse_float true s) = true /\
   fopt_sim (pf32_field s') (pf32_field s) = true /\
-  (integral_lit s = false -> int_text s' = false).
+  (integral_lit s = false -> int_text s' = false) /\
+  (forall k, In k int_kinds -> conv_int k s' = int_of_lit k s).
 Proof.
   intros s s' H. unfold rf_ok_lit in H.
+  apply andb_prop in H. destruct H as [H H6].
   apply andb_prop in H. destruct H as [H H5]. apply andb_prop in H. destruct H as [H H4].
   apply andb_prop in H. destruct H as [H H3]. apply andb_prop in H. destruct H as [H1 H2].
-  repeat split; auto. intro Hi. rewrite Hi in H5. simpl in H5. destruct (int_text s'); simpl in H5; congruence.
+  repeat split; auto.
+  - intro Hi. rewrite Hi in H5. simpl in H5. destruct (int_text s'); simpl in H5; congruence.
+  - intros k Hk. rewrite forallb_forall in H6. specialize (H6 k Hk). unfold oz_eqb in H6.
+    destruct (conv_int k s') as [x|], (int_of_lit k s) as [y|]; try discriminate; auto.
+    apply Z.eqb_eq in H6. congruence.
+Qed.
+
+Lemma int_kinds_all : forall k, match k with KInt _ | KUint _ => In k int_kinds | _ => True end.
+Proof. intros [|w|w| | |]; try exact I; destruct w; simpl; tauto. Qed.
+
+(* an integer position that the side condition admits: the re-rendered text does not convert *)
+Lemma lit_conv_none : forall k s s', rf_ok_lit s s' = true ->
+  match k with KInt _ | KUint _ => int_of_lit k s = None -> conv_string k s' = None | _ => True end.
+Proof.
+  intros k s s' Hok. pose proof (rf_ok_lit_inv s s' Hok) as [_ [_ [_ [_ [_ H]]]]].
+  pose proof (int_kinds_all k) as Hk.
+  destruct k as [|w|w| | |]; auto; intro Hn; specialize (H _ Hk); rewrite Hn in H; simpl in H; simpl; rewrite H; reflexivity.
 Qed.
 
 Lemma lit_float : forall s s', rf_ok_lit s s' = true -> float_lit s = true.
@@ -181,8 +199,9 @@ Proof.
       (apply fails_bind_unit; [apply json_number_range_no_panic|];
        apply fails_bind_unit; [apply guard_no_panic|]; exists EType; reflexivity).
   - (* int *)
-    simpl in Hat. apply negb_true_iff in Hat.
-    pose proof (int_text_conv_none (KInt w) s' (lit_int s s' Hok Hat)) as H1.
+    simpl in Hat.
+    assert (H1 : conv_string (KInt w) s' = None)
+      by (apply (lit_conv_none (KInt w) s s' Hok); destruct (int_of_lit (KInt w) s); [discriminate | reflexivity]).
     pose proof (int_text_conv_none (KInt w) s (float_lit_not_int s s' Hok)) as H2.
     cbv beta iota in H1, H2.
     apply rsim_fails;
@@ -191,8 +210,9 @@ Proof.
     + rewrite H1. exists EConv. reflexivity.
     + rewrite H2. exists EConv. reflexivity.
   - (* uint *)
-    simpl in Hat. apply negb_true_iff in Hat.
-    pose proof (int_text_conv_none (KUint w) s' (lit_int s s' Hok Hat)) as H1.
+    simpl in Hat.
+    assert (H1 : conv_string (KUint w) s' = None)
+      by (apply (lit_conv_none (KUint w) s s' Hok); destruct (int_of_lit (KUint w) s); [discriminate | reflexivity]).
     pose proof (int_text_conv_none (KUint w) s (float_lit_not_int s s' Hok)) as H2.
     cbv beta iota in H1, H2.
     apply rsim_fails;
@@ -225,12 +245,12 @@ Lemma prim_elem_sim : forall inmap k s s',
 Proof.
   intros inmap k s s' Hok Hat. unfold prim_elem.
   destruct k as [|w|w| | |]; simpl in Hat; try discriminate.
-  - apply negb_true_iff in Hat.
-    pose proof (int_text_conv_none (KInt w) s' (lit_int s s' Hok Hat)) as H1.
+  - assert (H1 : conv_string (KInt w) s' = None)
+      by (apply (lit_conv_none (KInt w) s s' Hok); destruct (int_of_lit (KInt w) s); [discriminate | reflexivity]).
     pose proof (int_text_conv_none (KInt w) s (float_lit_not_int s s' Hok)) as H2.
     cbv beta iota in H1, H2. rewrite H1, H2. simpl. exact I.
-  - apply negb_true_iff in Hat.
-    pose proof (int_text_conv_none (KUint w) s' (lit_int s s' Hok Hat)) as H1.
+  - assert (H1 : conv_string (KUint w) s' = None)
+      by (apply (lit_conv_none (KUint w) s s' Hok); destruct (int_of_lit (KUint w) s); [discriminate | reflexivity]).
     pose proof (int_text_conv_none (KUint w) s (float_lit_not_int s s' Hok)) as H2.
     cbv beta iota in H1, H2. rewrite H1, H2. simpl. exact I.
   - simpl. apply fopt_sim_rsim. apply (lit_pf32 s s' Hok).
